@@ -88,10 +88,15 @@ class C17(object):
                 c['cls'] = rng.choice(['PID_CT', 'PID_Proj'])
                 c['addr'] = 'default'
                 c['pre'] = [rng.choice([[[0]], [[1]], [[0], [1]]]), rng.choice([0.0, 0.05, 0.3])]
+            elif r_ < 0.43 and c['cls'] in ('PID_WB', 'PID_MMI', 'PID_GK', 'PID_PM') and c['addr'] == 'default':
+                # a complete decomposition with a pre-assessed atom that (usually) contradicts the measure: the flags must say so
+                c['pre'] = [rng.choice([[[0]], [[1]], [[0], [1]]]), rng.choice([0.0, 0.05, 0.3])]
             yield c
 
     def shrink(self, case):
-        if case['cls'] != 'PID_MMI':
+        if case['cls'] != 'PID_MMI' and not case.get('pre'):
+            # (a pre-assessed atom belongs to the incomplete class it was generated for: with another class the case
+            # is a different experiment, not a smaller one)
             c = dict(case)
             c['cls'] = 'PID_MMI'
             yield c
